@@ -5,7 +5,17 @@
 set -e
 cd "$(dirname "$0")"
 V=.venv
+check_lemmas() {
+  # the finite-set lemma schema used by the mode-U query kernels is proved in Lean 4 + Mathlib; re-checked at every fresh set-up
+  if command -v lean >/dev/null 2>&1 && timeout 900 lean lemmas/FinsetCard.lean > $V/lemmas_checked.log 2>&1 && ! grep -q "error\|sorry" $V/lemmas_checked.log; then
+    echo "checked by lean $(lean --version 2>/dev/null | head -1)" > $V/lemmas_checked
+  else
+    echo "NOT checked (lean unavailable or the check failed): the lemma schema is an assumption" > $V/lemmas_checked
+  fi
+  echo "setup: lemmas/FinsetCard.lean: $(cat $V/lemmas_checked)"
+}
 if [ -x $V/bin/python ] && $V/bin/python -c "import z3, jsonschema, numpy" 2>/dev/null; then
+  [ -f $V/lemmas_checked ] || check_lemmas
   echo "setup: $V already usable"; exit 0
 fi
 rm -rf $V
@@ -14,3 +24,4 @@ PIP_NO_INDEX=1 $V/bin/python -m pip install -q --no-index --find-links /opt/veri
 SP=$($V/bin/python -c "import sysconfig; print(sysconfig.get_paths()['purelib'])")
 echo "import site; site.addsitedir('/venv/lib/python3.12/site-packages')" > $SP/_repo_deps.pth
 PYTHONPATH=/repo $V/bin/python -c "import z3, jsonschema, numpy, thermosteam; print('setup ok: z3', z3.get_version_string())"
+check_lemmas
